@@ -122,8 +122,9 @@ def oracle(s, impl, spec_line):
         elif k == "defined":
             got = k + ":" + unescape(rest)
         elif k == "aggregate":
-            w = rest.split(",")
-            got = k + ":" + ",".join(w[:3] + [unescape(w[3])])
+            if "!" in rest:
+                return ("type-body", f"defined type {t.name}: the base type name of the aggregate cannot be resolved in its scope: {got}")
+            got = k + ":" + re.sub(r"@?([A-Za-z_][A-Za-z_0-9]*)(\]*)$", lambda m: unescape(m.group(1)) + m.group(2), rest)
         if got != want:
             return ("type-body", f"defined type {t.name}: emitted {got}, declared {want}")
     return None
@@ -199,7 +200,7 @@ def remove_type(s, name):
     for e in t.entities:
         e.attrs = [a for a in e.attrs if not (isinstance(a.typ, str) and a.typ.endswith(" OF " + name))]
     t.types = [ty for ty in t.types if ty.name != name and not (ty.body[0] == "defined" and ty.body[1] == name)
-               and not (ty.body[0] == "aggregate" and ty.body[4] == name)]
+               and not (ty.body[0] == "aggregate" and G.agg_levels(ty.body)[1] == name)]
     for ty in t.types:
         if ty.body[0] == "select":
             ty.body = ("select", [m for m in ty.body[1] if m != name])
@@ -458,6 +459,8 @@ def batches(ctx):
     yield "rename-chains", [G.gen_rename_chain(ctx.rng, 1000 * d + 10 * ki + pi, kind, d)
                             for ki, kind in enumerate(sorted(G.SIMPLE) + ["BOOLEAN", "ENUM", "SELECT"])
                             for d in (1, 2, 3, 4) for pi in range(perms if d >= 3 else 2)]
+    yield "nested-aggregates", [G.gen_nested_aggregates(ctx.rng, i) for i in range(60 if quick else 600)]
+    yield "diamond-dags", [G.gen_diamond_dag(ctx.rng, i) for i in range(80 if quick else 800)]
     yield "ancestor-through-multiple-supertypes", [G.gen_lattice(ctx.rng, i) for i in range(60 if quick else 600)]
     yield "random-any-supertype-order", [G.gen(ctx.rng, idx=30000 + i, n_ent=ctx.rng.randrange(3, 9), p_multi=0.6, p_kw=0.05)
                                          for i in range(40 if quick else 400)]
